@@ -16,7 +16,7 @@
    line: Net/IPv6Print.v), print6_full of IPv6Network.exploded;  cidr4_text s x l (Net/IPv4Thm.v) is the DECLARATIVE
    grammar "s spells address x with prefix length l" (canonical decimal octets; /len, /netmask, /hostmask or nothing). *)
 From Coq Require Import List Bool NArith ZArith.
-From PV Require Import Base.Str Base.Value Net.Arith Net.NetText Net.IPv4 Net.IPv4Thm Net.IPv6 Net.IPv6Thm Net.IPv6Print Net.Public Net.PublicTable.
+From PV Require Import Base.Str Base.Value Net.Arith Net.NetText Net.IPv4 Net.IPv4Thm Net.IPv6 Net.IPv6Thm Net.IPv6Print Net.Public Net.PublicTable Net.ExposureLaws.
 From PVGen Require Import PrivateNets.
 Import ListNotations.
 Local Open Scope N_scope.
@@ -359,3 +359,252 @@ Proof.
   split; [apply (inside_iff (167837696, 16) (167772160, 8)); [apply wfb_wf | apply wfb_wf |]; vm_compute; reflexivity|].
   vm_compute. tauto.
 Qed.
+
+(* ================================================================================================================ *)
+(* ALGEBRAIC LAWS of the exposure predicates (Net/ExposureLaws.v).  TABLE4 = SHARED4 :: PRIVATE4 is the generated table;
+   is_private4 = ipaddress's is_private (inside one PRIVATE4 entry), is_global4 = is_global (inside no TABLE4 entry),
+   is_public4 = DBSecurityGroupIngressProp.is_public on a rule with that CIDR; addr_global4 x = is_global4 (x, 32).
+   Laws that FAIL carry the suffix _refuted and a witness. *)
+
+(* ---- structure of CIDR blocks (every width) ---- *)
+(* two blocks that share an address are nested *)
+Theorem C17_laminar : forall W n p x, wf W n -> wf W p -> in_net W x n -> in_net W x p -> snd p <= snd n ->
+  subnet_of W n p = true.
+Proof. exact laminar. Qed.
+Print Assumptions C17_laminar.
+Example C17_ex_laminar : wf W4 (167837696, 16) /\ wf W4 (167772160, 8) /\ in_net W4 167837700 (167837696, 16) /\
+  in_net W4 167837700 (167772160, 8) /\ snd (167772160, 8) <= snd (167837696, 16).
+Proof. repeat split; vm_compute; try reflexivity; intros; discriminate. Qed.
+
+(* a stored network IS its set of addresses *)
+Theorem C17_network_is_its_set : forall W n m, wf W n -> wf W m -> (forall x, in_net W x n <-> in_net W x m) -> n = m.
+Proof. exact wf_ext. Qed.
+Print Assumptions C17_network_is_its_set.
+
+(* ---- 1. monotonicity in the range ---- *)
+(* "contains every address" is upward closed ... *)
+Theorem C17_slash_zero_monotone : forall W n m, wf W m -> subnet_of W n m = true -> slash_zero n = true -> slash_zero m = true.
+Proof. exact slash_zero_up. Qed.
+Print Assumptions C17_slash_zero_monotone.
+(* ... and not downward closed *)
+Theorem C17_slash_zero_down_refuted : exists a b, wf W4 a /\ wf W4 b /\ subnet_of W4 a b = true /\
+  slash_zero_field (Some b) = true /\ slash_zero_field (Some a) = false.
+Proof. exact slash_zero_down_refuted. Qed.
+Print Assumptions C17_slash_zero_down_refuted.
+
+(* private is DOWNWARD closed (any table) *)
+Theorem C17_private_down : forall PRIV a b, subnet_of W4 a b = true -> is_private PRIV b = true -> is_private PRIV a = true.
+Proof. exact is_private_down. Qed.
+Print Assumptions C17_private_down.
+(* globally routable and the is_public() verdict are UPWARD closed (any table): a range that contains a public range is
+   public, every range inside a non-public range is non-public *)
+Theorem C17_global_up : forall SHARED PRIV a b, subnet_of W4 a b = true ->
+  is_global SHARED PRIV a = true -> is_global SHARED PRIV b = true.
+Proof. exact is_global_up. Qed.
+Print Assumptions C17_global_up.
+Theorem C17_public_up : forall SHARED PRIV a b g g', wf W4 b -> subnet_of W4 a b = true ->
+  is_public SHARED PRIV (Some a) g = true -> is_public SHARED PRIV (Some b) g' = true.
+Proof. exact is_public_up. Qed.
+Print Assumptions C17_public_up.
+Theorem C17_not_public_down : forall SHARED PRIV a b g g', wf W4 b -> subnet_of W4 a b = true ->
+  is_public SHARED PRIV (Some b) g' = false -> is_public SHARED PRIV (Some a) g = false.
+Proof. exact not_public_down. Qed.
+Print Assumptions C17_not_public_down.
+Example C17_ex_monotone :       (* 8.8.8.0/24 inside 8.0.0.0/6, public; 10.1.0.0/16 inside 10.0.0.0/8, not public *)
+  wf W4 (134217728, 6) /\ subnet_of W4 (134744064, 24) (134217728, 6) = true /\ is_public4 (Some (134744064, 24)) false = true /\
+  wf W4 (167772160, 8) /\ subnet_of W4 (167837696, 16) (167772160, 8) = true /\ is_public4 (Some (167772160, 8)) false = false /\
+  is_private4 (167772160, 8) = true.
+Proof. repeat split; vm_compute; try reflexivity; intros; discriminate. Qed.
+(* the other directions fail: 10.0.0.0/8 (private, not public) lies inside 8.0.0.0/6 (not private, public) *)
+Theorem C17_private_up_public_down_refuted : exists a b, wf W4 a /\ wf W4 b /\ subnet_of W4 a b = true /\
+  is_private4 a = true /\ is_private4 b = false /\ is_global4 b = true /\ is_global4 a = false /\
+  is_public4 (Some b) false = true /\ is_public4 (Some a) false = false.
+Proof. exact is_private4_up_refuted. Qed.
+Print Assumptions C17_private_up_public_down_refuted.
+(* "not private" is not "globally routable": 100.64.0.0/10 is neither, and is_public() says not public *)
+Theorem C17_private_global_complement_refuted : exists n, wf W4 n /\ is_private4 n = false /\ is_global4 n = false /\
+  is_public4 (Some n) false = false.
+Proof. exact private_global_complement_refuted. Qed.
+Print Assumptions C17_private_global_complement_refuted.
+
+(* ---- 4. what "public" means, and the partition ---- *)
+(* is_public() on a CIDR = the range contains AT LEAST ONE address outside every reserved entry (0.0.0.0/0 included: the
+   special case in the code is subsumed).  So a range that contains public addresses IS reported public, and a range
+   reported public does contain one -- it cannot be pieced together from several reserved entries *)
+Theorem C17_public_iff_contains_public_address : forall n g, wf W4 n ->
+  (is_public4 (Some n) g = true <-> exists x, in_net W4 x n /\ forall p, In p TABLE4 -> ~ in_net W4 x p).
+Proof. exact is_public4_iff_contains. Qed.
+Print Assumptions C17_public_iff_contains_public_address.
+Theorem C17_global_iff_contains_global_address : forall n, wf W4 n ->
+  (is_global4 n = true <-> exists x, in_net W4 x n /\ forall p, In p TABLE4 -> ~ in_net W4 x p).
+Proof. exact is_global4_iff_contains. Qed.
+Print Assumptions C17_global_iff_contains_global_address.
+(* for any table without adjacent entries (after_clean, a computable condition) *)
+Theorem C17_global_has_global_address : forall SHARED PRIV, Forall (wf W4) (SHARED :: PRIV) -> forall n,
+  after_clean SHARED PRIV = true -> wf W4 n -> is_global SHARED PRIV n = true ->
+  exists x, in_net W4 x n /\ addr_global SHARED PRIV x = true.
+Proof. exact is_global_has_global. Qed.
+Print Assumptions C17_global_has_global_address.
+Example C17_ex_after_clean : after_clean SHARED4 PRIVATE4 = true /\ wf W4 (134217728, 6) /\ is_global4 (134217728, 6) = true /\
+  in_net W4 134217728 (134217728, 6) /\ addr_global4 134217728 = true.
+Proof. repeat split; vm_compute; try reflexivity; intros; discriminate. Qed.
+
+(* every network is exactly one of: inside one entry (not globally routable) / straddling = an entry lies wholly inside it
+   and it reaches outside (globally routable) / disjoint from every entry (globally routable).  Any well-formed table *)
+Theorem C17_partition : forall SHARED PRIV, Forall (wf W4) (SHARED :: PRIV) -> forall n, wf W4 n ->
+  (Inside SHARED PRIV n /\ ~ Straddles SHARED PRIV n /\ ~ Disjoint SHARED PRIV n /\ is_global SHARED PRIV n = false) \/
+  (~ Inside SHARED PRIV n /\ Straddles SHARED PRIV n /\ ~ Disjoint SHARED PRIV n /\ is_global SHARED PRIV n = true) \/
+  (~ Inside SHARED PRIV n /\ ~ Straddles SHARED PRIV n /\ Disjoint SHARED PRIV n /\ is_global SHARED PRIV n = true).
+Proof. exact partition. Qed.
+Print Assumptions C17_partition.
+(* the executable classifier decides the three classes *)
+Theorem C17_classify : forall SHARED PRIV, Forall (wf W4) (SHARED :: PRIV) -> forall n, wf W4 n ->
+  (classify SHARED PRIV n = CInside <-> Inside SHARED PRIV n) /\
+  (classify SHARED PRIV n = CStraddle <-> Straddles SHARED PRIV n) /\
+  (classify SHARED PRIV n = CDisjoint <-> Disjoint SHARED PRIV n).
+Proof. exact (fun S P H n Hn => conj (classify_inside S P H n Hn) (conj (classify_straddle S P H n Hn) (classify_disjoint S P H n Hn))). Qed.
+Print Assumptions C17_classify.
+Example C17_ex_classes :        (* 10.0.0.0/8; 8.0.0.0/6 around it; 8.0.0.0/8 beside it; 0.0.0.0/0; 100.0.0.0/9 around the shared range *)
+  classify4 (167772160, 8) = CInside /\ classify4 (134217728, 6) = CStraddle /\ classify4 (134217728, 8) = CDisjoint /\
+  classify4 (0, 0) = CStraddle /\ classify4 (1677721600, 9) = CStraddle /\ is_public4 (Some (134217728, 6)) false = true.
+Proof. repeat split; vm_compute; reflexivity. Qed.
+
+(* ---- 3. boundaries of the table entries ---- *)
+(* every address of an entry is not globally routable; for an entry that is not nested in another one the verdict flips
+   EXACTLY at its first and last address: first-1 and last+1 (when they exist) are globally routable *)
+Theorem C17_boundaries : forall p, In p TABLE4 ->
+  (forall x, fst p <= x < next_after p -> addr_global4 x = false) /\
+  (outermost4 p = true -> 0 < fst p -> addr_global4 (fst p - 1) = true) /\
+  (outermost4 p = true -> next_after p < 2 ^ 32 -> addr_global4 (next_after p) = true).
+Proof. exact boundaries4. Qed.
+Print Assumptions C17_boundaries.
+(* ... and in the prefix-length direction: around the first and around the last address of such an entry, the /l network is
+   globally routable exactly when it is strictly wider than the entry (all 33 lengths) *)
+Theorem C17_boundary_lengths : forall p l, In p TABLE4 -> outermost4 p = true -> l <= 32 ->
+  is_global4 (mk_net W4 (fst p) l) = (l <? snd p) /\ is_global4 (mk_net W4 (next_after p - 1) l) = (l <? snd p).
+Proof. exact boundary_lengths4. Qed.
+Print Assumptions C17_boundary_lengths.
+(* the arithmetic behind it, any width, any address x of p *)
+Theorem C17_inside_flips_at_prefix_length : forall W x l p, wf W p -> in_net W x p -> l <= W ->
+  (subnet_of W (mk_net W x l) p = true <-> snd p <= l).
+Proof. exact mk_net_inside_iff. Qed.
+Print Assumptions C17_inside_flips_at_prefix_length.
+Example C17_ex_boundaries :     (* 172.16.0.0/12: 172.15.255.255 and 172.32.0.0 are outside; /11 around it is public *)
+  In (2886729728, 12) TABLE4 /\ outermost4 (2886729728, 12) = true /\ next_after (2886729728, 12) = 2887778304 /\
+  addr_global4 2886729727 = true /\ addr_global4 2886729728 = false /\ addr_global4 2887778303 = false /\
+  addr_global4 2887778304 = true /\ is_global4 (mk_net W4 2886729728 11) = true /\ is_global4 (mk_net W4 2886729728 12) = false.
+Proof. repeat split; vm_compute; try reflexivity; tauto. Qed.
+(* exactly one entry is nested: 255.255.255.255/32 inside 240.0.0.0/4; there the law fails (255.255.255.254 is reserved) *)
+Theorem C17_nested_entries : filter (fun p => negb (outermost4 p)) TABLE4 = [(4294967295, 32)].
+Proof. exact nested_entries4. Qed.
+Print Assumptions C17_nested_entries.
+Theorem C17_boundary_nested_refuted : exists p, In p TABLE4 /\ 0 < fst p /\ addr_global4 (fst p - 1) = false /\ outermost4 p = false.
+Proof. exact boundary_nested_refuted. Qed.
+Print Assumptions C17_boundary_nested_refuted.
+
+(* ---- 2. spellings ---- *)
+(* whatever host bits are written, with a prefix length or a netmask: the network of the written address is stored *)
+Theorem C17_written_prefix : forall x l, x < 2 ^ 32 -> l <= 32 ->
+  parse4 (print_addr4 x ++ SLASH :: print_small l) = Ok (mk_net W4 x l).
+Proof. exact parse4_written. Qed.
+Print Assumptions C17_written_prefix.
+Theorem C17_written_netmask : forall x l, x < 2 ^ 32 -> l <= 32 ->
+  parse4 (print_addr4 x ++ SLASH :: print_mask4 l) = Ok (mk_net W4 x l).
+Proof. exact parse4_written_mask. Qed.
+Print Assumptions C17_written_netmask.
+(* two accepted texts that denote the same SET of addresses store the same value: no function of the stored value -- the
+   present predicates or any future one -- can tell two spellings of a range apart *)
+Theorem C17_spelling_blind : forall (A : Type) (P : net -> A) s1 s2 n1 n2, parse4 s1 = Ok n1 -> parse4 s2 = Ok n2 ->
+  (forall x, in_net W4 x n1 <-> in_net W4 x n2) -> P n1 = P n2.
+Proof. exact spelling_blind4. Qed.
+Print Assumptions C17_spelling_blind.
+Theorem C17_spelling_blind6 : forall (A : Type) (P : net -> A) s1 s2 n1 n2, parse6 s1 = Ok n1 -> parse6 s2 = Ok n2 ->
+  (forall x, in_net W6 x n1 <-> in_net W6 x n2) -> P n1 = P n2.
+Proof. exact spelling_blind6. Qed.
+Print Assumptions C17_spelling_blind6.
+Example C17_ex_spellings_10 :   (* 10.1.2.3/8 = 10.1.2.3/255.0.0.0 = 10.1.2.3/0.255.255.255 = 10.0.0.0/8, not public *)
+  parse4 (T "10.1.2.3/8") = Ok (167772160, 8) /\ parse4 (T "10.1.2.3/255.0.0.0") = Ok (167772160, 8) /\
+  parse4 (T "10.1.2.3/0.255.255.255") = Ok (167772160, 8) /\ parse4 (T "10.0.0.0/8") = Ok (167772160, 8) /\
+  print_addr4 167838211 = T "10.1.2.3" /\ is_public4 (Some (167772160, 8)) false = false.
+Proof. repeat split; vm_compute; reflexivity. Qed.
+
+(* ---- 5. the two address families ---- *)
+(* no text is accepted by both fields *)
+Theorem C17_v4_text_not_v6 : forall s n, parse4 s = Ok n -> parse6 s = Err EValue.
+Proof. exact v4_text_not_v6. Qed.
+Print Assumptions C17_v4_text_not_v6.
+(* IPv4-mapped IPv6: "::ffff:a.b.c.d/(96+l)" is accepted by CidrIpv6 and stores the image of a.b.c.d/l ... *)
+Theorem C17_mapped_parse : forall x l, x < 2 ^ 32 -> l <= 32 ->
+  parse6 (MAPPED_PREFIX ++ print_addr4 x ++ SLASH :: print_small (96 + l)) = Ok (mapped6 (mk_net W4 x l)).
+Proof. exact parse6_mapped. Qed.
+Print Assumptions C17_mapped_parse.
+Theorem C17_mapped_denotes : forall n x, in_net W6 (mapped_addr x) (mapped6 n) <-> in_net W4 x n.
+Proof. exact mapped6_in. Qed.
+Print Assumptions C17_mapped_denotes.
+Theorem C17_mapped_wf : forall n, wf W4 n -> wf W6 (mapped6 n).
+Proof. exact mapped6_wf. Qed.
+Print Assumptions C17_mapped_wf.
+(* ... and ipv6_slash_zero() never reports it: the whole IPv4 space written as ::ffff:0.0.0.0/96 is not "slash zero" (it is not
+   the whole IPv6 space; the model has no other IPv6 predicate) *)
+Theorem C17_mapped_never_slash_zero : forall n, slash_zero_field (Some (mapped6 n)) = false.
+Proof. exact mapped6_not_slash_zero. Qed.
+Print Assumptions C17_mapped_never_slash_zero.
+Theorem C17_mapped_whole_v4_space : 
+  parse6 (MAPPED_PREFIX ++ print_addr4 0 ++ SLASH :: print_small 96) = Ok (mapped6 ZERO) /\
+  slash_zero_field (Some (mapped6 ZERO)) = false /\ (forall x, x < 2 ^ 32 -> in_net W6 (mapped_addr x) (mapped6 ZERO)).
+Proof. exact mapped_whole_v4_space_not_flagged. Qed.
+Print Assumptions C17_mapped_whole_v4_space.
+Example C17_ex_mapped : MAPPED_PREFIX ++ print_addr4 0 ++ SLASH :: print_small 96 = T "::ffff:0.0.0.0/96" /\
+  parse6 (T "::ffff:10.1.2.3/104") = Ok (mapped6 (167772160, 8)) /\ parse4 (T "::ffff:0.0.0.0/96") = Err EValue /\
+  parse4 (T "10.0.0.0/8") = Ok (167772160, 8) /\ parse6 (T "10.0.0.0/8") = Err EValue.
+Proof. repeat split; vm_compute; reflexivity. Qed.
+
+(* ---- 6. rule level: complete decision tables ---- *)
+(* EC2 rules: each predicate reads its own CIDR field; source group and prefix list are never consulted *)
+Theorem C17_ec2_rule_table : forall c4 c6 g pl,
+  let r := {| r_cidr4 := c4; r_cidr6 := c6; r_group := g; r_prefix_list := pl |} in
+  (rule_v4_zero r, rule_v6_zero r) =
+  match c4, c6 with
+  | None, None => (false, false)
+  | Some n, None => (net_eqb n ZERO, false)
+  | None, Some m => (false, net_eqb m ZERO)
+  | Some n, Some m => (net_eqb n ZERO, net_eqb m ZERO)
+  end.
+Proof. exact ec2_rule_table. Qed.
+Print Assumptions C17_ec2_rule_table.
+Theorem C17_ec2_rule_semantics : forall r,
+  (forall n, r_cidr4 r = Some n -> wf W4 n) -> (forall n, r_cidr6 r = Some n -> wf W6 n) ->
+  (rule_v4_zero r = true <-> exists n, r_cidr4 r = Some n /\ forall x, x < 2 ^ 32 -> in_net W4 x n) /\
+  (rule_v6_zero r = true <-> exists n, r_cidr6 r = Some n /\ forall x, x < 2 ^ 128 -> in_net W6 x n).
+Proof. exact ec2_rule_semantics. Qed.
+Print Assumptions C17_ec2_rule_semantics.
+(* RDS rules: with a CIDR the source groups are not consulted; without one, public iff no source group is named *)
+Theorem C17_rds_rule_table : forall SH PR c gname gid,
+  is_public_rule SH PR c gname gid =
+  match c with
+  | Some n => net_eqb n ZERO || is_global SH PR n
+  | None => negb (truthy gname || truthy gid)
+  end.
+Proof. exact rds_rule_table. Qed.
+Print Assumptions C17_rds_rule_table.
+Theorem C17_rds_group_never_opens : forall SH PR c gname gid,
+  is_public_rule SH PR c gname gid = true -> is_public_rule SH PR c None None = true.
+Proof. exact rds_group_monotone. Qed.
+Print Assumptions C17_rds_group_never_opens.
+Example C17_ex_rds_rules :      (* group only; nothing; 8.8.8.8 + group; 10.0.0.0/8 + group; empty group name *)
+  is_public_rule SHARED4 PRIVATE4 None (Some (T "g")) None = false /\ is_public_rule SHARED4 PRIVATE4 None None None = true /\
+  is_public_rule SHARED4 PRIVATE4 (Some (134744072, 32)) None (Some (T "sg-1")) = true /\
+  is_public_rule SHARED4 PRIVATE4 (Some (167772160, 8)) None (Some (T "sg-1")) = false /\
+  is_public_rule SHARED4 PRIVATE4 None (Some (T "")) None = true.
+Proof. repeat split; vm_compute; reflexivity. Qed.
+(* two laws a reader might expect and that fail: a rule with neither CIDR nor group is public, yet ADDING 10.0.0.0/8 to it
+   makes it not public; two rules that together cover the whole space (0.0.0.0/1, 128.0.0.0/1) are neither "slash zero" *)
+Theorem C17_rds_absent_cidr_not_monotone_refuted : exists n, wf W4 n /\
+  is_public_rule SHARED4 PRIVATE4 None None None = true /\ is_public_rule SHARED4 PRIVATE4 (Some n) None None = false.
+Proof. exact rds_absent_cidr_not_monotone_refuted. Qed.
+Print Assumptions C17_rds_absent_cidr_not_monotone_refuted.
+Theorem C17_cover_not_additive_refuted : exists a b, wf W4 a /\ wf W4 b /\
+  (forall x, x < 2 ^ 32 -> in_net W4 x a \/ in_net W4 x b) /\
+  slash_zero_field (Some a) = false /\ slash_zero_field (Some b) = false.
+Proof. exact cover_not_additive_refuted. Qed.
+Print Assumptions C17_cover_not_additive_refuted.
